@@ -113,6 +113,18 @@ def run(tier):
     for i in range(n):
         z = gen.rand_zone(r_, maxrecs=60 if i % 3 else 12, d1free=(i % 2 == 0))
         cases.append({"zone": z, "qs": gen.zone_questions(r_, z)})
+    # histories: a second (third) zone of the same apex merged in afterwards - another SOA, a larger or smaller
+    # minimum TTL, overlapping owners - then the lookups: what comes back is what the merged zone holds
+    for i in range(n // 3):
+        z = gen.rand_zone(r_, maxrecs=12, d1free=True, auth=True)
+        others = []
+        for _ in range(r_.choice([1, 1, 2])):
+            o = gen.rand_zone(r_, maxrecs=8, d1free=True, apex=z["apex"], auth=r_.random() < 0.8)
+            others.append(o)
+        qs = gen.zone_questions(r_, z)
+        for o in others:
+            qs += gen.zone_questions(r_, o)[:12]
+        cases.append({"zone": z, "merge": others, "qs": qs})
     for lo in range(0, len(cases), 500):
         k2 = validate(v, wd, "tv%d" % lo, cases[lo:lo + 500])
         for k, c in k2.items():
